@@ -5,6 +5,9 @@
 set -u
 ID=$1; SRC=$2; shift 2
 export GOFLAGS=-mod=mod GOPROXY=off GOSUMDB=off GOTOOLCHAIN=local
+# the tree under test: a scratch worktree of /repo HEAD (/repo itself is never modified)
+RUT=${RUT:-/tmp/rut}
+git -C /repo worktree remove --force $RUT 2>/dev/null; git -C /repo worktree add -q --detach $RUT HEAD || exit 2
 mkdir -p /verif/benign/$ID
 cp $SRC/SEED/patch.diff $SRC/SEED/README.md /verif/benign/$ID/ 2>/dev/null
 W=/tmp/confirm-$ID
@@ -16,17 +19,17 @@ git -C /repo worktree add -q --detach $W HEAD || exit 2
 git -C /repo worktree remove --force $W
 RES=""
 if [ $RB -eq 0 ] && [ $RS -eq 0 ]; then
-  git -C /repo apply /verif/benign/$ID/patch.diff || exit 2
+  git -C $RUT apply /verif/benign/$ID/patch.diff || exit 2
   for P in "$@"; do
-    OUT=$(cd /verif && VERIF_EVIDENCE_DIR=/verif/work/evidence-seeded ./check $P 2>&1); rc=$?
+    OUT=$(cd /verif && VERIF_REPO=$RUT VERIF_EVIDENCE_DIR=/verif/work/evidence-seeded ./check $P 2>&1); rc=$?
     echo "--- check $P on rewritten tree (rc=$rc):"; echo "$OUT" | grep -v KNOWN | tail -4
     if [ $rc -eq 0 ]; then RES="$RES $P:quiet"; else
       if echo "$OUT" | grep "^VIOLATION" | grep -qv "no-failing-input-found"; then RES="$RES $P:FALSE-ALARM-with-input"; else RES="$RES $P:broken-tie(no-failing-input-found)"; fi
       for f in $(echo "$OUT" | grep -o 'replay=[^ ]*' | cut -d= -f2); do cp $f /verif/benign/$ID/ 2>/dev/null; done
     fi
   done
-  git -C /repo checkout -- .
-  git -C /repo status --short
+  git -C $RUT checkout -- .
+  git -C $RUT status --short
 else
   RES="not-confirmed build=$RB suite=$RS"
 fi
